@@ -168,4 +168,35 @@ theorem parse_error_display :
   refine ⟨?_, ?_, ?_⟩ <;>
     simp [lib_Display_for_ParseQuantityError_fmt, envNone, c_NoSeparator, c_ValueParseError, c_UnknownUnit, substFmt]
 
+/-! ## the remaining one-line bodies
+
+`Conversion::conversion` (trait default, src/lib.rs: `Self::coefficient()` — what every unit uses, `unit!` does not
+override it), `description()` (src/quantity.rs: the `$description` literal of the `quantity!` invocation) and
+`Clone for Arguments` (`*self`).  With these every function body the translator reads from the macro files is the
+subject of a theorem in one of the two body languages. -/
+
+/-- an environment with one nullary name -/
+def envConst (c : Nat) (v : RV Unit) : Env Unit :=
+  { envNone with ext := fun d args => if d = c then (match args with | [] => v | _ => .bad) else .bad }
+
+theorem consts_not_native :
+    c_Self_coefficient ≠ cNone ∧ c_description ≠ cNone ∧ c_description ≠ cLess ∧ c_description ≠ cEqual ∧
+    c_description ≠ cGreater := by decide
+
+/-- the default `conversion()` of a unit is its `coefficient()` — whatever the receiver -/
+theorem default_conversion_eq (k : RV Unit) (hk : k ≠ .bad) (hp : k ≠ .panicked) (x : RV Unit) :
+    run (envConst c_Self_coefficient k) lib_free_conversion [x] = (.val k, []) := by
+  cases k <;> simp_all [lib_free_conversion, envConst, envNone, c_Self_coefficient]
+
+/-- `description()` is the declared description -/
+theorem description_eq (d : Bytes) :
+    run (envConst c_description (.str d)) quantity_free_description [] = (.val (.str d), []) := by
+  simp [quantity_free_description, envConst, envNone, c_description]
+
+/-- `Clone for Arguments` returns its argument -/
+theorem arguments_clone_eq (style : Style) :
+    run (envGlue (V := Unit) id (fun _ => none) (fun _ => false) ⟨[], [], []⟩)
+        system_Clone_for_Arguments_clone [.host (.args style)] = (.val (.host (.args style)), []) := by
+  simp [system_Clone_for_Arguments_clone]
+
 end Uom.BodyEq.FmtGlue
